@@ -45,7 +45,14 @@ def contents(draw, ext):
     lang = LANG_EXT.get(ext)
     if lang is None:
         return draw(st.sampled_from(["hello\n", "", "x\n" * 40]))
-    kind = draw(st.sampled_from(["flat", "flat", "flat", "canonical", "malformed", "latin1", "empty", "flat_nocl", "cr"]))
+    kind = draw(st.sampled_from(["flat", "flat", "flat", "canonical", "malformed", "latin1", "empty", "flat_nocl", "cr", "exact"]))
+    if kind == "exact":
+        # one function that fills the whole file, with and without a final newline (31 lines = 30 newline characters)
+        v = draw(st.sampled_from([30, 31, 32, 60, 61, 62]))
+        text = tree.flat_file(lang, [v])
+        if lang in ("Java", "C#"):
+            text = tree.flat_function(lang, "only", v)
+        return text.rstrip("\n") if draw(st.booleans()) else text
     if kind in ("flat_nocl", "cr"):
         ls = draw(st.lists(st.sampled_from([5, 31, 35, 45, 61, 62]), min_size=2, max_size=4))
         if lang == "Python":
@@ -125,6 +132,13 @@ def cases(draw):
         body = tree.flat_file("C", [draw(st.sampled_from([31, 35, 61]))])
         lead = draw(st.sampled_from(["#pragma once\n", "/* [section two] */\n", "// @end\n", "#include <stdio.h>\n", "@interface Foo\n@end\n", ""]))
         filled[path] = lead + body
+    if draw(st.integers(0, 3)) == 0:
+        # byte-identical content under names of two languages that measure it differently
+        from vf.props.c06 import MACRO_C
+
+        d = draw(st.sampled_from([""] + [x + "/" for x in dirs if not G.hidden(x)][:4]))
+        filled[f"{d}walk_dup.c"] = MACRO_C
+        filled[f"{d}walk_dup.cpp"] = MACRO_C
     opt = draw(wild_patterns(files, dirs)) if draw(st.integers(0, 2)) else []
     yml = draw(wild_patterns(files, dirs)) if draw(st.booleans()) else None
     gi = draw(wild_patterns(files, dirs)) if draw(st.booleans()) else None
@@ -152,7 +166,7 @@ def run_case(case):
 
         def do_scan():
             cli.reset_config()
-            Configuration.exclude.extend(case["option"])
+            cli.add_excludes(case["option"])
             Configuration.load(Path("."))
             return Scanner.scan_path(Path("."))
 
